@@ -120,6 +120,26 @@ def check_case(case):
             return kind, None
         return kind, ("substitute_unfold_differ", f"{kind}: substituting then unfolding != unfolding then substituting: "
                                                   f"{str(lhs)[:120]} vs {str(rhs)[:120]}")
+    if kind == "poolsum_value":
+        # definition of the sum: one term per element of the FULL product of the pools, whatever the summand contains
+        import itertools
+
+        if not type(obj).__name__ == "PoolSum":
+            raise Skip("not a PoolSum")
+        idx = [(ix, tuple(vals)) for ix, vals in obj.args[1:]]
+        want = sp.Add(*[obj.args[0].xreplace(dict(zip([ix for ix, _ in idx], combi))).doit()
+                        for combi in itertools.product(*[v for _, v in idx])]).doit()
+        got = timed(lambda: obj.doit())
+        try:
+            ok = U.same(got, want)
+        except U.Undecided:
+            ok = None
+        if not ok:
+            ok = numeric_equal(got, want)
+        if ok is None:
+            raise Skip("undecided")
+        return kind, None if ok else ("poolsum_unfolding_not_full_product",
+                                      f"{obj}.doit() = {str(got)[:100]}, the sum over the product of the pools is {str(want)[:100]}")
     if kind == "eq":
         b = U.from_ir(case["irb"])
         same_parts = type(obj) is type(b) and obj.args == b.args and attrs_equal(obj, b)
@@ -268,6 +288,23 @@ def gen_cases(seed, n):
     for tree in (ps_, kal):
         cases.append({"kind": "nested", "ir": tree, "er": [(a, ("Y", "Symbol('fresh_t')"))]})
         cases.append({"kind": "commute", "ir": tree, "er": [(a, ("N", 1, 1))]})
+    # PoolSum: multiplicity of indices the summand does not (or, after the map, no longer) depend on
+    gs, b0, e0_, j_ = ("Y", "Symbol('g')"), ("Y", "Symbol('b0')"), ("Y", "Symbol('e0')"), ("Y", "Symbol('j')")
+    mul, add, pw = "sympy.core.mul.Mul", "sympy.core.add.Add", "sympy.core.power.Pow"
+    pool = lambda ix, *vs: ("A", G.TUPLE, [ix, ("A", G.TUPLE, list(vs))])  # noqa: E731
+    one, two, three = ("N", 1, 1), ("N", 2, 1), ("N", 3, 1)
+    psf_i = ("U", psf, [s, i_, m2], [("n",)])
+    ps_g = ("A", G.POOLSUM, [("A", add, [("A", mul, [gs, ("A", pw, [x, i_])]), b0]), pool(i_, one, two)])
+    ps_e = ("A", G.POOLSUM, [("A", pw, [x, ("A", mul, [e0_, i_])]), pool(i_, one, two, three)])
+    ps_f = ("A", G.POOLSUM, [("A", add, [("A", mul, [gs, psf_i]), b0]), pool(i_, m1, two)])
+    ps_n = ("A", G.POOLSUM, [("A", G.POOLSUM, [("A", add, [("A", mul, [gs, i_, j_]), b0]), pool(j_, one, two)]), pool(i_, one, two, three)])
+    ps_b = ("A", G.POOLSUM, [b0, pool(i_, one, two, three)])
+    for tree, key in ((ps_g, gs), (ps_e, e0_), (ps_f, gs), (ps_n, gs),
+                      (("U", "ampform.kinematics.phasespace.Kallen", [ps_g, ("Y", "Symbol('y')"), s], []), gs)):
+        cases.append({"kind": "commute", "ir": tree, "er": [(key, ("N", 0, 1))]})
+        cases.append({"kind": "commute_subs", "ir": tree, "er": [(key, ("N", 0, 1))]})
+    for tree in (ps_b, ps_g, ps_n, ps_):
+        cases.append({"kind": "poolsum_value", "ir": tree})
     # distinct callables sharing module.qualname in a non-SymPy attribute: must compare unequal
     edw = "ampform.dynamics.EnergyDependentWidth"
     eargs = [s, ("Y", "Symbol('m0')"), ("Y", "Symbol('w0')"), m1, m2, ("N", 0, 1), ("N", 1, 1)]
@@ -291,6 +328,9 @@ def gen_cases(seed, n):
         if U.ir_size(ir) > 300:
             continue
         k = g.r.choice(["commute", "commute", "commute_subs", "nested", "eq", "eq", "func", "numpy"])
+        if ir[0] == "A" and ir[1] == G.POOLSUM and g.r.random() < 0.3:
+            cases.append({"kind": "poolsum_value", "ir": ir})
+            continue
         if k in ("commute", "commute_subs", "nested"):
             if G.has_unhashable(ir):
                 continue
